@@ -257,14 +257,17 @@ def _gauss_spec(c, x, mean, Sigma_diag=None, Sigma=None):
     raise NotImplementedError
 
 
-def gaussian_form(c, param, form, n, sparse_side):
+def gaussian_form(c, param, form, n, sparse_side, magnitude=None):
     """Gaussian given through `param` in input form `form`; the distribution it denotes is fixed by the documentation:
-    cov -> Sigma ; prec -> Sigma = prec^-1 ; sqrtcov R -> Sigma = R^T R ; sqrtprec R -> Sigma = (R^T R)^-1"""
+    cov -> Sigma ; prec -> Sigma = prec^-1 ; sqrtcov R -> Sigma = R^T R ; sqrtprec R -> Sigma = (R^T R)^-1.
+    `magnitude` s (native only): the same distribution in units in which its standard deviations are of order s - the density is a
+    function of the matrix, not of the size of its entries (no entry is 'negligible' because it is small in absolute terms)"""
     from cuqi import config
     old = config.MIN_DIM_SPARSE
     config.MIN_DIM_SPARSE = 0 if sparse_side == 'above' else 10 ** 6
     try:
         mean = c.vec('m', n); x = c.vec('x', n)
+        if magnitude is not None: x = mean + magnitude * (x - mean)
         if form == 'scalar':
             v = c.real('v', pos=True); diag = np.array([v] * n, dtype=object if c.sym else float); arg = v
         elif form == 'vector':
@@ -295,6 +298,10 @@ def gaussian_form(c, param, form, n, sparse_side):
             arg = c.mat('r', n, n)
             det = arg[0, 0] * arg[1, 1] - arg[0, 1] * arg[1, 0]
             c.assume(det * det > 0.01)
+        if magnitude is not None:
+            f = {'cov': magnitude ** 2, 'prec': magnitude ** -2, 'sqrtcov': magnitude, 'sqrtprec': 1 / magnitude}[param]
+            arg = type(arg)(f * v for v in arg) if isinstance(arg, (list, tuple)) else arg * f
+            if diag is not None: diag = diag * f
         if diag is not None:
             Sd = {'cov': diag, 'prec': 1 / diag, 'sqrtcov': diag ** 2, 'sqrtprec': 1 / diag ** 2}[param]
             spec = _gauss_spec(c, x, mean, Sigma_diag=Sd)
@@ -308,8 +315,9 @@ def gaussian_form(c, param, form, n, sparse_side):
                 P = A if param == 'prec' else A.T @ A
                 d = x - mean
                 if n == 2: det = P[0, 0] * P[1, 1] - P[0, 1] * P[1, 0]
-                else: det = float(np.linalg.det(np.asarray(P, dtype=float)))
-                spec = -0.5 * (n * LOG2PI(c) - np.log(det)) - 0.5 * (d @ P @ d)
+                else: det = None
+                logdet = np.log(det) if det is not None else float(np.linalg.slogdet(np.asarray(P, dtype=float))[1])
+                spec = -0.5 * (n * LOG2PI(c) - logdet) - 0.5 * (d @ P @ d)
         g = Gaussian(mean, **{param: arg})
         c.eq('logpdf_is_documented_gaussian', g.logpdf(x), spec)
         y = c.vec('y', n)
@@ -361,6 +369,15 @@ def jobs(tier):
                 for side in ('below', 'above'):
                     for n in (3, 4):
                         J.append(Job(f'Gaussian.logpdf:{param}:dense:sparse_switch={side}:n={n}', lambda c, p=param, n=n, s=side: gaussian_form(c, p, 'dense', n, s), 'B', G, nnum=12 if q else 60))
+    # the same distributions in small / large units (native, bounded): full matrices whose entries are tiny or huge in absolute terms
+    for param in ('cov', 'prec', 'sqrtcov', 'sqrtprec'):
+        for form in ('dense', 'vector', 'sparsediag'):
+            for side in ('below', 'above'):
+                for n in ((2, 3) if form == 'dense' else (2,)):
+                    for mag in (1e-5, 1e5):
+                        if q and (form != 'dense' and side == 'above'): continue
+                        J.append(Job(f'Gaussian.logpdf:{param}:{form}:sparse_switch={side}:n={n}:magnitude={mag:g}',
+                                     lambda c, p=param, f=form, n=n, s=side, mag=mag: gaussian_form(c, p, f, n, s, mag), 'B', G, nnum=6 if q else 30))
     for fam in FAMILIES:
         J.append(Job(f'{fam}.history:parameters_reassigned_after_use:n=2', lambda c, fam=fam: family_reassign(c, fam, 2), 'B' if fam == 'Lognormal' else 'Pbox',
                      F(mods[fam], f'{fam}.logpdf') + [f'{D}._distribution:Distribution.logd']))
